@@ -14,6 +14,10 @@ printed rationals are compared byte for byte with
 Every op's per-rank output ends with the verdict of the PMPI request-discipline monitor (harness/pmpi_trace.hpp), "PMPI ok" on the
 model side; op xtrace compares the recorded MPI call sequence of two consecutive products with the program DistMsg.exch_rounds;
 "tr:<op>" lines return the call sequence of <op>, which is checked by the extracted discipline checkers of DistMsg.v (msgcheck).
+Operation HISTORIES on one object (op "hist", model DistMove.v): constructor, then a sequence of move_to_backend(keep_src in
+{false,true}) calls interleaved with consumers of the kept source (local()/remote() dump, copy to builtin<float> + product there,
+transpose, product A*B, A^T*A, remote_rows(A^T pattern, A), Gershgorin, power method) and of the backend view (product, residual,
+backend matrices dump, ghost-vector size), on 1..5 ranks incl. empty ranks and rectangular matrices, integer data.
 Oracles: Gershgorin estimate = serial value on every rank ("gersh_spec", also with 2..5 OpenMP threads per
 rank: "gersht"); power-method estimate bitwise identical on all ranks.
 """
@@ -50,6 +54,15 @@ RULE = ("cases derived from VERIF_SEED by tools/props/C11.py: every contiguous p
         "distinct = distinct (op, payload); non-trivial = implementation output contains a non-zero value and is not an exception")
 
 TIMEOUT = 240
+HIST_TIMEOUT = 100
+
+
+def len_steps(line):
+    """number of steps of a hist case line = the count token that precedes the trailing step names"""
+    toks = line.split()
+    k = 0
+    while k < len(toks) and not toks[-1 - k].lstrip("-").isdigit(): k += 1
+    return k
 
 
 def np_of(line):
@@ -168,6 +181,68 @@ def cases(tier, seed):
         add(np_, "tr:spmvres", a, P, P, fmt_vec(x1), fmt_vec(f), fmt_vec(x2), fmt_vec(x3))
         add(np_, "cpat", a, P, P)
 
+    # ---- operation histories on ONE object: move_to_backend(keep_src) x consumers (DistMove.v); own random stream so that
+    # the cases above do not depend on it
+    rh = random.Random(seed * 1000 + 1111)
+    def imat(n, m, square_diag=False, pow2_diag=False):
+        A = gen.dycrs(rh, n, m, density=rh.choice([0.3, 0.5, 0.8, 1.0]), dups=(rh.random() < 0.2), empty_rows=(rh.random() < 0.5))
+        A = [[(c, F(rh.choice([-4, -3, -2, -1, 1, 2, 3, 4]))) for c, _ in rw] for rw in A]
+        if pow2_diag:        # Gershgorin with scale = true divides by the diagonal entry: powers of two keep binary64 exact
+            A = [[(c, F(rh.choice([1, 2, 4, -2])) if c == i else v) for c, v in rw] for i, rw in enumerate(A)]
+        if square_diag:
+            A = [[(c, v) for c, v in rw if c != i] + [(i, F(rh.choice([1, 2, 4, -2])))] for i, rw in enumerate(A)]
+            for rw in A:
+                if rh.random() < 0.5: rh.shuffle(rw)
+        return A
+    def history(square, fulldiag):
+        cons = ["dump", "tr", "prod", "ata", "rrt", "copyf"] + (["g0", "g1"] if square else []) + (["pw"] if square and fulldiag else [])
+        fam = rh.random()
+        if fam < 0.25:       # keep the source, then every kind of consumer of the kept source, then the backend view
+            k = rh.sample(cons, min(len(cons), rh.randint(2, 4)))
+            return ["mv1"] + k + ["spmv", "dump"]
+        if fam < 0.35:       # consumer BEFORE the move, then move, backend view, consumer again when kept
+            keep = rh.random() < 0.6
+            return [rh.choice(cons), "mv1" if keep else "mv0", "spmv", "res", rh.choice(cons) if keep else "dump", "dump"]
+        if fam < 0.45:       # release: the source is gone, the backend view stays; a second move changes nothing
+            return ["mv0", "dump", "spmv", rh.choice(["mv0", "mv1"]), "dump", "res"] + ([rh.choice(cons)] if rh.random() < 0.3 else [])
+        if fam < 0.55:       # keep, consume, keep again, consume, release, backend view
+            return ["mv1", rh.choice(cons), "mv1", rh.choice(cons), "dump", "mv0", "dump", "spmv"]
+        steps = []; moved = False; src = True       # random walk over the states
+        for _ in range(rh.randint(3, 7)):
+            u = rh.random()
+            if u < 0.3:
+                kp = rh.random() < 0.65; steps.append("mv1" if kp else "mv0"); moved = True; src = src and kp
+            elif u < 0.5 and moved: steps.append(rh.choice(["spmv", "res"]))
+            elif u < 0.62: steps.append("dump")
+            elif src or rh.random() < 0.1: steps.append(rh.choice(cons))
+            else: steps.append("dump")
+        if not any(st.startswith("mv") for st in steps): steps.insert(rh.randrange(len(steps) + 1), rh.choice(["mv1", "mv1", "mv0"]))
+        return steps
+    def hist_case(np_, n, rp, m, cp, k, kp):
+        square = (n == m and rp == cp)
+        fulldiag = square and n > 0 and rh.random() < 0.8
+        A = imat(n, m, square_diag=fulldiag, pow2_diag=square)
+        B = imat(m, k)
+        x = [F(rh.randint(-4, 4)) for _ in range(m)]; f = [F(rh.randint(-4, 4)) for _ in range(n)]
+        st = history(square, fulldiag)
+        add(np_, "hist", fmt_crs(n, m, A), fmt_ivec(rp), fmt_ivec(cp), fmt_crs(m, k, B), fmt_ivec(kp), fmt_vec(x), fmt_vec(f),
+            len(st), " ".join(st))
+    for np_ in ([1, 2, 3, 4, 5] if quick else [1, 2, 3, 4, 5, 6, 8]):
+        for n in range(0, (4 if quick else 5) + 1):
+            for p in gen.compositions(n, np_):
+                if np_ >= 6 and rh.random() < 0.6: continue
+                if rh.random() < 0.7: hist_case(np_, n, p, n, p, n, p)
+                else:
+                    m = rh.randint(0, 6); k = rh.randint(0, 5)
+                    hist_case(np_, n, p, m, gen.rcomposition(rh, m, np_), k, gen.rcomposition(rh, k, np_))
+        for it in range(50 if quick else 120):
+            n = rh.randint(np_, 14)
+            rp = gen.rcomposition(rh, n, np_, empty_bias=0.15)
+            if rh.random() < 0.7: hist_case(np_, n, rp, n, rp, n, rp)
+            else:
+                m = rh.randint(1, 14); k = rh.randint(1, 10)
+                hist_case(np_, n, rp, m, gen.rcomposition(rh, m, np_, empty_bias=0.15), k, gen.rcomposition(rh, k, np_))
+    hist_lines = out; out = []; cnt = {}
     ranks = [1, 2, 3, 4] if quick else [1, 2, 3, 4, 5, 6, 7, 8]
     nmax = 5 if quick else 7
     for np_ in ranks:
@@ -194,6 +269,10 @@ def cases(tier, seed):
             ops_for(np_, n, rp, m, cp, k, gen.rcomposition(r, k, np_), heavy=(it % 2 == 0))
             square_ops(np_, n, rp)
             if it % 3 == 0: oneway_ops(np_, rp)
+    for l in hist_lines:                       # ids continue after the cases above (which keep the ids they always had)
+        cid, rest = l.split(" ", 1); np_ = np_of(l)
+        kk = cnt.get(np_, 0); cnt[np_] = kk + 1
+        out.append("p%d.%d %s" % (np_, kk, rest))
     return out
 
 
@@ -215,13 +294,31 @@ def run(ctx, cases_override=None):
         ls = groups[np_]
         shards = {1: 4, 2: 3, 3: 2, 4: 2}.get(np_, 1) if len(ls) > 50 else 1
         opof = lambda l: l.split(" ", 2)[1]
-        modelled = [l for l in ls if opof(l) != "power" and not opof(l).startswith("tr:")]
+        modelled = [l for l in ls if opof(l) not in ("power", "hist") and not opof(l).startswith("tr:")]
+        hist = [l for l in ls if opof(l) == "hist"]
         unmodelled = [l for l in ls if opof(l) == "power"]
         traced = [l for l in ls if opof(l).startswith("tr:")]
         impl = run_mpi(ctx, ctx["cpp"]["mpi_algebra"], modelled, np_, MPIRUN, shards=shards, timeout=TIMEOUT + 30,
                        env={"OMP_NUM_THREADS": "1"})
         model = ctx["run_driver"](ctx["model"], modelled)
         account(ctx, modelled, impl)
+        # operation histories: own mpirun (a consumer of a corrupted source may hang: short timeout, the other cases are not lost)
+        if hist:
+            implh = run_mpi(ctx, ctx["cpp"]["mpi_algebra"], hist, np_, MPIRUN, shards=(2 if len(hist) > 40 else 1), timeout=HIST_TIMEOUT,
+                            env={"OMP_NUM_THREADS": "1"})
+            modelh = ctx["run_driver"](ctx["model"], hist)
+            account(ctx, hist, implh)
+            crashed_h = any((v or "").startswith("CRASH") for v in implh.values())
+            for l in hist:
+                cid, op = l.split(" ", 2)[:2]
+                a, b = implh.get(cid), modelh.get(cid)
+                if a == b: continue
+                ctx["stats"]["mismatches"] += 1
+                if a is None and crashed_h: continue       # not run: an earlier case of the shard hung/crashed
+                fails.append(dict(kind="counterexample", case=l, impl=a, model=b, op=op, size=len(l), np=np_,
+                                  theorem="correspondence drv_mpi_algebra (history %s, %d ranks) vs DistMove.v / Dist.v; "
+                                          "C11_kept_source_is_source, C11_kept_source_history, C11_moved_spmv_is_source_spmv, "
+                                          "C11_backend_fixed_by_first_move, C11_*_after_keep_src" % (" ".join(l.split()[-len_steps(l):]), np_)))
         f = []
         for l in modelled:
             cid, op = l.split(" ", 2)[:2]
